@@ -28,7 +28,9 @@ def mergeKind (m : Kinds) (k : String) (v : Kind) : Kinds :=
   | some e => if e == v then m else insertSorted m k .unknown
   | none => insertSorted m k v
 
-def isInternalPath (a : String) : Bool := a.startsWith "__nervus_internal_path_"
+/-- internal_alias.rs `is_internal_path_alias` (`starts_with`, written on character lists so that the kernel can
+    evaluate it in closed counterexamples) -/
+def isInternalPath (a : String) : Bool := a.toList.take 23 == "__nervus_internal_path_".toList
 
 /-- binding_analysis.rs `infer_expression_binding_kind` -/
 def inferKind (vars : Kinds) : Expr → Kind
